@@ -102,11 +102,18 @@ func ReportRaces(r *R) {
 	repo := os.Getenv("VERIF_REPO")
 	work := os.Getenv("VERIF_WORK")
 	var ov struct{ Replace map[string]string }
-	if b, err := os.ReadFile(filepath.Join(work, "overlay.json")); err == nil {
+	ovPath, cfgPath := os.Getenv("VERIF_OVERLAY"), os.Getenv("VERIF_INSTRCFG")
+	if ovPath == "" {
+		ovPath = filepath.Join(work, "overlay.json")
+	}
+	if cfgPath == "" {
+		cfgPath = filepath.Join(work, "instr.json")
+	}
+	if b, err := os.ReadFile(ovPath); err == nil {
 		_ = json.Unmarshal(b, &ov)
 	}
 	var cfg instrCfg
-	if b, err := os.ReadFile(filepath.Join(work, "instr.json")); err == nil {
+	if b, err := os.ReadFile(cfgPath); err == nil {
 		_ = json.Unmarshal(b, &cfg)
 	}
 	touch := map[string][]string{}
